@@ -30,6 +30,29 @@ def isFunction (t : OpTable) (name : Bytes) : Bool := t.functions.contains name
 def isConstant (t : OpTable) (name : Bytes) : Bool := t.constants.contains name
 def isOperation (t : OpTable) (name : Bytes) : Bool := t.operations.contains name
 def isPriorityChar (t : OpTable) (c : UInt8) : Bool := t.priorityChar.contains c
+
+/-- ASCII part of `strings.ToLower` (aliases outside ASCII are not modelled) -/
+def lowerAscii (bs : Bytes) : Bytes := bs.map (fun c => if 65 ≤ c.toNat && c.toNat ≤ 90 then c + 32 else c)
+
+/-- `AddOperation(alias, prior, right, fn)` of math.go: everything is filed under the lower-cased alias; a map assignment
+replaces an earlier entry; `rightOp` is only ever set -/
+def addOperation (t : OpTable) (alias : Bytes) (prior : Nat) (right : Bool) : OpTable :=
+  let name := lowerAscii alias
+  { t with
+    operations := if t.operations.contains name then t.operations else t.operations ++ [name]
+    priority := (name, prior) :: t.priority.filter (fun p => p.1 != name)
+    priorityChar := match name with
+      | c :: _ => if t.priorityChar.contains c then t.priorityChar else t.priorityChar ++ [c]
+      | [] => t.priorityChar            -- Go: index out of range (alias must not be empty)
+    rightOp := if right && !t.rightOp.contains name then t.rightOp ++ [name] else t.rightOp }
+
+/-- `AddFunction` / `AddConstant`: filed under the lower-cased alias -/
+def addFunction (t : OpTable) (alias : Bytes) : OpTable :=
+  let name := lowerAscii alias
+  { t with functions := if t.functions.contains name then t.functions else t.functions ++ [name] }
+def addConstant (t : OpTable) (alias : Bytes) : OpTable :=
+  let name := lowerAscii alias
+  { t with constants := if t.constants.contains name then t.constants else t.constants ++ [name] }
 end OpTable
 
 /-- result of a scanner that may also return Go's `io.EOF` sentinel -/
